@@ -32,6 +32,9 @@ type Config struct {
 	SelectReplay []int
 	// TraceLog, if true, keeps the full switch log (task, site, next task, step) for debugging.
 	TraceLog bool
+	// NsPerStep is the number of simulated nanoseconds one step takes (0 = 1000): the speed of the
+	// simulated machine relative to the timeouts in the code under test.
+	NsPerStep int64
 }
 
 // LeakInfo describes a task that is alive and disabled.
@@ -79,6 +82,12 @@ type Result struct {
 	Trace       [][4]int64
 	// SelectChoices are the choices made among several ready clauses of select statements.
 	SelectChoices []int
+	// the simulated clock: time covered, jumps over idle periods, reads, timers armed and fired
+	SimNanos    int64
+	ClockJumps  int64
+	ClockReads  int64
+	TimersArmed int64
+	TimersFired int64
 }
 
 type abortPanic struct{}
@@ -110,9 +119,11 @@ const (
 	reqSelect
 	reqWgWait
 	reqWgDone
+	reqSleep
+	reqWake
 )
 
-var kindName = [...]string{"yield", "spawn", "exit", "maindone", "send", "recv", "close", "opdone", "idle", "nilchan", "lock", "unlock", "select", "wgwait", "wgdone"}
+var kindName = [...]string{"yield", "spawn", "exit", "maindone", "send", "recv", "close", "opdone", "idle", "nilchan", "lock", "unlock", "select", "wgwait", "wgdone", "sleep", "wake"}
 
 type request struct {
 	kind  reqKind
@@ -125,6 +136,7 @@ type request struct {
 	pv    *TaskPanic
 	cases []selCaseReq // select
 	dflt  bool         // select has a default clause
+	until int64        // sleep: simulated time (ns) at which the task is enabled again
 }
 
 // selCaseReq is one communication clause of a select as the scheduler sees it.
@@ -170,6 +182,8 @@ type task struct {
 	prio      int64
 	sel       []selCaseReq // non-nil while blocked in a select
 	selIdx    int
+	wakeAt    int64 // blocked in reqSleep: simulated time (ns) of the wake-up
+	timer     bool  // the task behind a simulated timer
 }
 
 type chanState struct {
@@ -194,6 +208,12 @@ type Sim struct {
 	nopreempt int
 	quiet     int // >0: yields neither advance time nor switch (simulator-internal callbacks into instrumented code)
 	current   *task
+	nsPerStep int64 // simulated nanoseconds per step
+	clockJump int64 // nanoseconds added by jumps to the next wake-up when nothing could run
+	// clock statistics (touched under the baton)
+	clockReads  int64
+	timersArmed int64
+	timersFired int64
 
 	// scheduler-owned
 	tasks        []*task
@@ -213,6 +233,8 @@ type Sim struct {
 	aborting     *task
 	idleInfo     []LeakInfo
 	runnableBuf  []*task
+	sleepers     int
+	clockJumps   int64
 }
 
 var cur *Sim
@@ -262,6 +284,11 @@ func Run(cfg Config, mainFn func()) *Result {
 		s.res.SwitchPairs = map[[2]int32]int{}
 	}
 	resetPools()
+	resetTimers()
+	s.nsPerStep = cfg.NsPerStep
+	if s.nsPerStep <= 0 {
+		s.nsPerStep = defaultNsPerStep
+	}
 	main := &task{id: 0, name: "main", resume: make(chan resumeMsg, 1), isMain: true}
 	s.tasks = []*task{main}
 	s.current = main
@@ -274,6 +301,9 @@ func Run(cfg Config, mainFn func()) *Result {
 	setCur(nil)
 	s.res.Steps = s.steps
 	s.res.Tasks = len(s.tasks)
+	s.res.SimNanos = s.nowNs()
+	s.res.ClockJumps = s.clockJumps
+	s.res.ClockReads, s.res.TimersArmed, s.res.TimersFired = s.clockReads, s.timersArmed, s.timersFired
 	return &s.res
 }
 
@@ -744,6 +774,20 @@ func (s *Sim) handle(r request) {
 		// disabled until the counter of that WaitGroup reaches zero
 		s.block(t, reqWgWait, r.ch, r.site)
 		s.schedule(nil, true)
+	case reqSleep:
+		if r.until <= s.nowNs() {
+			s.schedule(t, false)
+			break
+		}
+		s.block(t, reqSleep, 0, r.site)
+		t.wakeAt = r.until
+		s.sleepers++
+		s.schedule(nil, true)
+	case reqWake:
+		if c := r.child; c != nil && c.state == stBlocked && c.blockKind == reqSleep {
+			c.wakeAt = -1 << 62
+		}
+		s.schedule(t, false)
 	case reqWgDone:
 		for _, p := range s.tasks {
 			if p.state == stBlocked && p.blockKind == reqWgWait && p.blockCh == r.ch {
@@ -1064,6 +1108,9 @@ func (s *Sim) schedule(from *task, forced bool) {
 		s.beginAbort(from)
 		return
 	}
+	if s.sleepers > 0 {
+		s.wakeDue()
+	}
 	run := s.runnableBuf[:0]
 	for _, t := range s.tasks {
 		if t.state == stRunnable {
@@ -1071,6 +1118,21 @@ func (s *Sim) schedule(from *task, forced bool) {
 		}
 	}
 	s.runnableBuf = run
+	if len(run) == 0 && s.sleepers > 0 {
+		// nothing can run before the next wake-up: the clock jumps to it (discrete-event time)
+		next := int64(1<<62 - 1)
+		for _, t := range s.tasks {
+			if t.state == stBlocked && t.blockKind == reqSleep && t.wakeAt < next {
+				next = t.wakeAt
+			}
+		}
+		if d := next - s.nowNs(); d > 0 {
+			s.clockJump += d
+			s.clockJumps++
+		}
+		s.schedule(from, forced)
+		return
+	}
 	if len(run) == 0 && s.lockRetries < 3 {
 		// lock waiters retry before quiescence is declared: their mutex may have been released by code
 		// the rewriter did not see
@@ -1141,6 +1203,20 @@ func (s *Sim) schedule(from *task, forced bool) {
 		}
 	}
 	s.resume(from, next)
+}
+
+// wakeDue enables the sleepers whose time has come.
+//
+//go:norace
+func (s *Sim) wakeDue() {
+	now := s.nowNs()
+	for _, t := range s.tasks {
+		if t.state == stBlocked && t.blockKind == reqSleep && t.wakeAt <= now {
+			t.state = stRunnable
+			t.wakeMode = modeProceed
+			s.sleepers--
+		}
+	}
 }
 
 //go:norace
